@@ -287,7 +287,7 @@ impl Property for C06 {
     }
     fn assumptions(&self) -> Vec<String> {
         vec![
-            "cancelling an in-flight send future and power loss are not injected (the statement quantifies over radio errors; restore belongs to C20)".into(),
+            "cancelling an in-flight send future and power loss are not injected here (the statement quantifies over sends, window outcomes, Class C receptions and radio errors; a send() dropped after the transmission is followed by a frame with the same counter because FCntUp advances only when the receive procedure ends - DESIGN 13.2 item 3 and section 17; restore belongs to C20)".into(),
             "after a radio error the nb application retries the failed event; a failed transmit request ends the procedure".into(),
             "frames are decoded with the device's own session keys by the independent reference codec (AES/CMAC self-tested against FIPS-197/RFC 4493)".into(),
         ]
